@@ -368,6 +368,7 @@ pub fn run_one(run: &Value) -> Vec<Value> {
     let split_seed = run["cfg"]["split_seed"].as_u64().unwrap_or(0x9E3779B97F4A7C15) | 1;
     let m: Shared = Arc::new(Mutex::new(Sh::new(cfg, split_seed)));
     let ncallers = run["cfg"]["callers"].as_u64().unwrap_or(2) as usize;
+    let observer_handle = run["cfg"]["observer"].as_bool().unwrap_or(true);
     let greeting = opt_bytes(&run["cfg"]["greeting"]).unwrap_or_else(|| b"OK MPD 0.23.5\n".to_vec());
     let password = opt_bytes(&run["cfg"]["password"]);
     let connect_kind = run["cfg"]["connect"].as_str().unwrap_or(if password.is_some() { "password" } else { "plain" }).to_string();
@@ -386,7 +387,7 @@ pub fn run_one(run: &Value) -> Vec<Value> {
             s.log.push(json!({"e": "reset", "run": run_id,
                 "has_pw": password.is_some(), "pw": password.clone().unwrap_or_default(),
                 "has_srv_pw": scfg.password.is_some(), "srv_pw": scfg.password.clone().unwrap_or_default(),
-                "auth": scfg.auth, "greeting": greeting, "nh": ncallers + 1,
+                "auth": scfg.auth, "greeting": greeting, "nh": ncallers + if observer_handle { 1 } else { 0 },
                 "pic": {"embedded": sz(&pic.embedded), "file": sz(&pic.file), "hasMime": pic.mime.is_some(), "mime": pic.mime.clone().unwrap_or_default(),
                         "limit": pic.limit, "embedded_ack": pic.embedded_ack, "file_ack": pic.file_ack}}));
             s.max_read = run["cfg"]["max_read"].as_u64().unwrap_or(0) as usize;
@@ -452,7 +453,11 @@ pub fn run_one(run: &Value) -> Vec<Value> {
                 for _ in 0..ncallers {
                     d.clients.push(Some(client.clone()));
                 }
-                d.clients.push(Some(client));
+                if observer_handle {
+                    d.clients.push(Some(client));
+                } else {
+                    d.clients.push(None);
+                }
                 d.ev = Some(ev);
             }
         }
